@@ -348,7 +348,7 @@ var streamFamilies = []streamFamily{
 }
 
 // collectionItem: WriteCollection / ReadCollection (optionally preceded by PeekSize) with elements
-// written by Write[T] (inner 0/1) or WriteBytesWithSize (inner 2).
+// written by Write[uint16] / Write[uint64].
 func collectionItem(s *simrt.Sim, peek bool) *item {
 	lt := s.Choose(widths)
 	// elements are read with Read[T] or, rarely, ReadBytesWithSize (whose single-Read defect has its own
